@@ -315,8 +315,11 @@ def rule_placement(ctx, R, NR, BR, rules=None):
             _second_pass(ctx, v, NR, b, S, idmap_t, tag, want)
         # --- KNOB-SAN2 (bw): final sanitising over the whole active range before Ok
         if tag == "bw" and want("KNOB-SAN"):
-            sans = [s for s in S.calls if s["c"].body_path == r.sanitise.path]
-            oks = len(sans) == 1 and m(P(C(ITER_NEXT, C(endswith("::active_block_range"), ANY))), sans[0]["args"][1]) and \
+            # (when the extension duty is written inside this function there is a second, per-extension call of the sanitiser:
+            #  KNOB-SAN1; the final pass is the one fed from active_block_range())
+            sans = [s for s in S.calls if s["c"].body_path == r.sanitise.path and
+                    (r.extend is not b or m(It(C(endswith("::active_block_range"), ANY)), s["args"][1]))]
+            oks = len(sans) == 1 and m(It(C(endswith("::active_block_range"), ANY)), sans[0]["args"][1]) and \
                 core.same(sans[0]["args"][2], helper)
             ctx.check(oks, "KNOB-SAN2", b, "final-sanitise:" + tag, b.loc(sans[0]["bb"]) if sans else b.span,
                       "before returning, every block of helper.active_block_range() must be sanitised")
@@ -592,6 +595,12 @@ def rule_array_growth(ctx, R, NR, BR):
         # ---- init
         ib = r.init
         S = Sites(lib, ib)
+        if tag == "cw":
+            # the block length may be used through the field or through the local it was just computed in (same value)
+            ws0 = [s_ for s_ in S.stores if m(F(Par(1), "block_len"), s_["tgt"])]
+            if len(ws0) == 1:
+                blv = ws0[0]["val"]
+                blk = OneOf(F(Par(1), "block_len"), lambda t, e: core.same(t, blv))
         rs = [x for x in S.keyed(lambda k: k == "alloc::vec::Vec::resize") if not (ib is r.place and ib.in_cycle(x["bb"]))]
         ok = len(rs) == 1 and m(F(Par(1), "states"), rs[0]["args"][0]) and m(blk, rs[0]["args"][1]) and \
             m(C(endswith("Default::default@" + v.S)), rs[0]["args"][2])
@@ -632,7 +641,8 @@ def rule_array_growth(ctx, R, NR, BR):
                       "ROOT_STATE_IDX = 0 and DEAD_STATE_IDX = 1 (both inside the first block, both reserved)")
             # block length: max(next_power_of_two(alphabet_size), c>=2), assigned before use
             ws = [s for s in S.stores if m(F(Par(1), "block_len"), s["tgt"])]
-            mx = C("core::cmp::Ord::max", C(endswith("next_power_of_two"), C(endswith("CodeMapper::alphabet_size"), F(Par(1), "mapper"))),
+            mx = C(lambda k: core.callee_base(k) in ("core::cmp::Ord::max", "core::cmp::max"),
+                   C(endswith("next_power_of_two"), C(endswith("CodeMapper::alphabet_size"), F(Par(1), "mapper"))),
                    lambda t, e: t[0] == "const" and isinstance(t[1], int) and t[1] >= 2)
             okb = len(ws) == 1 and m(mx, ws[0]["val"])
             ctx.check(okb, "B-LEN", ib, "block-len-pow2:" + tag, ib.loc(ws[0]["bb"], ws[0]["si"]) if ws else ib.span,
@@ -669,7 +679,8 @@ def rule_array_growth(ctx, R, NR, BR):
                   "push_block (error propagated) and states.resize(+block) must succeed together, so helper.num_elements() == states.len()")
         if tag == "bw":
             # KNOB-SAN1: if a block is about to leave the window it is sanitised before push_block
-            sans = [s for s in S.calls if s["c"].body_path == r.sanitise.path and (not in_place or eb.in_cycle(s["bb"]))]
+            sans = [s for s in S.calls if s["c"].body_path == r.sanitise.path and
+                    (not in_place or m(P(C(endswith("::dropped_block"), ANY)), s["args"][1]))]
             hv_ = pb[0]["args"][0] if pb else ("undef",)
             same_h = lambda t, e: core.same(t, hv_)
             oks = len(sans) == 1 and m(P(C(endswith("::dropped_block"), same_h)), sans[0]["args"][1]) and m(same_h, sans[0]["args"][2])
